@@ -437,8 +437,13 @@ PROPS["C14"] = {
     "required_theorems": ["Failsafe.Props.C14.lock_discipline_orders_accesses", "Failsafe.Props.C14.no_unordered_pair", "Failsafe.Props.C14.unguarded_accesses_are_the_justified_ones",
                           "Failsafe.Props.C14.getter_call_sites", "Failsafe.Props.C14.live_execution_never_escapes", "Failsafe.Props.C14.calls_under_lock_are_the_listeners",
                           "Failsafe.Props.C14.no_deadlock"],
-    "diff": [],
-    "rule": "STRESS shared under the race detector: 12 workers x 60 (x scale) executions (two thirds sync, one third async, a quarter of those cancelled) through ONE set of nine "
+    "diff": [{"slice": "linz", "recorded": True, "n_quick": 60, "n_thorough": 600, "seeds_thorough": 3, "n_search": 300, "par": 4}],
+    "rule": "linz slice: concurrent histories of ONE shared breaker (count / ratio thresholds, success thresholds, delays) or rate limiter (smooth, bursty) behind the virtual "
+            "clock: 12 (quick) or 40 (thorough) rounds of 2-4 goroutines x 1-2 standalone operations (TryAcquirePermit, RecordSuccess, RecordFailure, Open, Close, HalfOpen; "
+            "ReservePermits, TryReservePermits, TryAcquirePermits) with call / return stamps from one atomic counter, a sequential status probe and a clock advance between rounds; "
+            "the Lean driver searches a real-time-respecting order of every round in which the sequential model (the definitions of C03 / C05) returns every observed result, carrying "
+            "the set of reachable model states from round to round (linearizability against the proved model); non-trivial = a round with more than two operations. "
+            "STRESS shared under the race detector: 12 workers x 60 (x scale) executions (two thirds sync, one third async, a quarter of those cancelled) through ONE set of nine "
             "executors sharing ONE breaker, bulkhead, bursty and smooth limiter, retry policy (with a DelayFunc and listeners that read the attempt they are handed), timeout, hedge "
             "and fallback instance, with function durations 0-0.5 ms around the 0.4 ms timeout and 0.1 ms hedge delay, while another goroutine calls the standalone API "
             "(Record*, Metrics, RemainingDelay, State, Open / HalfOpen / Close, TryAcquirePermit, AcquirePermit with a deadline, ReleasePermit, TryAcquirePermits, ReservePermit, "
@@ -453,9 +458,9 @@ PROPS["C14"] = {
                  "aliasing is approximated syntactically: accesses are `receiver.field` selectors in methods of the struct; state reached through other paths is covered by the race-detector run only",
                  "hedge attempts share the inner retry policy's executor: open known finding D4"],
     "manifest": {
-        "text": "Lean 4 theorems: in every trace of any number of threads that respects mutex semantics and the lock discipline (every access to a variable is made while owning its mutex), two accesses to one variable by different threads are separated by a release by the first and a later acquisition by the second thread of that mutex - the happens-before chain of the Go memory model, hence no data race on mutex-guarded state; no deadlock among mutexes that are never acquired nested. The discipline is tied to the source by FACTS regenerated on every run: the access table of the seven shared structs (every receiver.field access, read / write, guard: mutex region, externally locked method whose callers all lock, atomic / channel, immutable, none), whose unguarded rows must equal the justified list proved by decide (unlocked getters on per-copy fields that user code only receives as copies; the retry executor's per-execution fields), the call sites of those getters, the call sites that hand an execution to user code, and what runs under a mutex (only the breaker's listeners). Search / validation: the shared-instances stress run with and without the race detector; race reports are matched against open known findings by both access stacks and the creation site.",
+        "text": "Lean 4 theorems: in every trace of any number of threads that respects mutex semantics and the lock discipline (every access to a variable is made while owning its mutex), two accesses to one variable by different threads are separated by a release by the first and a later acquisition by the second thread of that mutex - the happens-before chain of the Go memory model, hence no data race on mutex-guarded state; no deadlock among mutexes that are never acquired nested. The discipline is tied to the source by FACTS regenerated on every run: the access table of the seven shared structs (every receiver.field access, read / write, guard: mutex region, externally locked method whose callers all lock, atomic / channel, immutable, none), whose unguarded rows must equal the justified list proved by decide (unlocked getters on per-copy fields that user code only receives as copies; the retry executor's per-execution fields), the call sites of those getters, the call sites that hand an execution to user code, and what runs under a mutex (only the breaker's listeners). Correspondence for the standalone API under concurrency: histories of concurrent operations on one shared breaker / rate limiter are checked by the Lean driver for linearizability against the sequential models that the C03 / C05 theorems are about. Search / validation: the shared-instances stress run with and without the race detector; race reports are matched against open known findings by both access stacks and the creation site.",
         "note": "Trusted: Lean kernel; fact extractor (syntactic aliasing); harness; race detector. Partial: schedules are sampled; 'every property holds per execution' rests on the interleaving theorems of C02/C04/C06-C09/C15 and their stress oracles; hedge over retry is an open known finding (D4).",
-        "technique": "Lean 4 proof (trace induction: lock discipline implies ordered accesses; no deadlock without nesting) + access-table facts decided against a justified list + race-detector stress"},
+        "technique": "Lean 4 proof (trace induction: lock discipline implies ordered accesses; no deadlock without nesting) + access-table facts decided against a justified list + linearizability of concurrent histories against the sequential Lean models + race-detector stress"},
 }
 
 PROPS["C19"] = {
